@@ -5,14 +5,14 @@ import std
 SPEC = {
     'prop_files': ['theories/Properties/C10_cbor.v'],
     'coq_targets': ['theories/Properties/C10_cbor.vo', 'theories/Wire/CborProofs.vo', 'theories/Wire/CborTime.vo', 'theories/Wire/CborEnc.vo', 'theories/Wire/CborDepth.vo', 'theories/Wire/CborTotal.vo', 'theories/Wire/CborDepthErr.vo', 'theories/Wire/CborCorr.vo'],
-    'closure_dirs': ['theories/Wire/Cbor.v', 'theories/Wire/CborFloat.v', 'theories/Wire/CborProofs.v', 'theories/Wire/CborTime.v', 'theories/Wire/CborEnc.v', 'theories/Wire/CborDepth.v', 'theories/Wire/CborTotal.v', 'theories/Wire/CborDepthErr.v', 'theories/Wire/CborCorr.v', 'theories/C10/CborConv.v',
+    'closure_dirs': ['theories/Wire/Cbor.v', 'theories/Wire/CborFloat.v', 'theories/Wire/CborProofs.v', 'theories/Wire/CborTime.v', 'theories/Wire/CborEnc.v', 'theories/Wire/CborDepth.v', 'theories/Wire/CborTotal.v', 'theories/Wire/CborDepthErr.v', 'theories/Wire/CborCorr.v', 'theories/Wire/CborVU.v', 'theories/Wire/CborVUProofs.v', 'theories/Wire/CborUtf8.v', 'theories/Wire/CborVUEnc.v', 'theories/Wire/CborDup.v', 'theories/Wire/CborDupProofs.v', 'theories/C10/CborConv.v',
                      'theories/C10/CborSpec.v', 'theories/C10/LeafTie.v', 'theories/Wire/Item.v', 'theories/Base/Outcome.v', 'theories/Base/Word.v', 'theories/Gen/Consts.v', 'theories/Gen/Leaf2.v'],
     'harness': 'wirecbor',
     'args': {
-        'quick': ['-enc', 500, '-ref', 500, '-mut', 350, '-rand', 350, '-first', 3, '-skip', 350, '-leaf', 300, '-transport', 200],
-        'thorough': ['-enc', 8000, '-ref', 8000, '-mut', 6000, '-rand', 6000, '-first', 12, '-skip', 6000, '-leaf', 4000, '-transport', 3000],
+        'quick': ['-enc', 500, '-ref', 500, '-mut', 350, '-rand', 350, '-first', 3, '-skip', 350, '-leaf', 300, '-transport', 200, '-vu', 400, '-dup', 300],
+        'thorough': ['-enc', 8000, '-ref', 8000, '-mut', 6000, '-rand', 6000, '-first', 12, '-skip', 6000, '-leaf', 4000, '-transport', 3000, '-vu', 8000, '-dup', 5000],
     },
-    'search_args': ['-enc', 4000, '-ref', 4000, '-mut', 3000, '-rand', 3000, '-first', 6, '-skip', 3000, '-leaf', 2000, '-transport', 1500],
+    'search_args': ['-enc', 4000, '-ref', 4000, '-mut', 3000, '-rand', 3000, '-first', 6, '-skip', 3000, '-leaf', 2000, '-transport', 1500, '-vu', 3000, '-dup', 2000],
     'assumptions': [
         'the model of the cbor driver, of the generic code decoding into interface{} and of bytesDecReader is hand written; it is tied to the source by running it (vm_compute) on the inputs the real Encoder/Decoder ran (harness/cmd/wirecbor), including all 256 first bytes and all 65536 half floats',
         'hardware float conversions/arithmetic (CVTSS2SD, CVTSD2SS, CVTSI2SD, ADDSD, DIVSD, MULSD, CVTTSD2SQ) are modelled on bit patterns and tied by the leaf stream, not proved against IEEE-754',
